@@ -611,6 +611,19 @@ def finish(pid, mod, args, seed, results, t0):
         notes.update(r.get('notes', {}))
         for k, v in r.get('exhaustive', {}).items():
             exhaustive[k] = exhaustive.get(k, True) and v
+    # A precondition that drops a large share of the cases leaves a check
+    # that silently tests little (and a regression that makes every case
+    # 'inconclusive' must not pass): bounded per sub-check.
+    inc_sub = collections.Counter()
+    for k, v in inconc.items():
+        inc_sub[k.split(':', 1)[0]] += v
+    limit = float(getattr(mod, 'MAX_INCONCLUSIVE', 0.3))
+    for sub, n_inc in inc_sub.items():
+        done = per_sub.get(sub, 0) + per_sub.get(sub + '@fuzz', 0)
+        if n_inc >= 5 and n_inc > limit*(n_inc + done):
+            herr.append(f"{sub}: {n_inc} of {n_inc + done} cases were "
+                        f"inconclusive (> {limit:.0%}): the oracle's "
+                        "preconditions fail too often to decide anything")
     # Sharded runs print their lines in the children's logs only; repeat.
     if len(results) > 1 or args.shard:
         for k in known.values():
